@@ -52,16 +52,37 @@ class IterCheck(PropCheck):
             elif d is not None:
                 failures.append({"kind": "disagreement", "key": self.pid + ":itdiff",
                                  "what": "iterator step trace differs from the model at line %d: model `%s` vs implementation `%s`" % d, "payload": payload})
+        # queueing exfiltrator (WithRawSiginfo: one channel per signal; several records of one signal
+        # can be queued): scheduled runs on the real code judged by the monitors alone
+        nq = 0
+        if self.pid in ("C09", "C10") and self.profile == "mixed":
+            from . import itq
+            qs = [itq.gen_scenario(rng) for _ in range(200 if tier == "quick" else 3000)]
+            for r in itq.run_many(qs):
+                nq += 1
+                qp = itq.monitors(r).get(self.pid, [])
+                dist["queue:end:" + r["status"].split()[1]] = dist.get("queue:end:" + r["status"].split()[1], 0) + 1
+                dist["queue:yields"] = dist.get("queue:yields", 0) + sum(1 for l in r["impl"] if " yield " in l)
+                if qp:
+                    failures.append({"kind": "violation", "key": "%s:itq:%s" % (self.pid, core.digest(qp[0].split(":")[-1][:40])),
+                                     "what": "iterator (queueing exfiltrator) schedule (%d steps): %s" % (len(r["schedule"]), qp[0]),
+                                     "payload": {"scenario": r["scenario"], "schedule": r["schedule"], "impl": r["impl"][-80:], "queue": True}})
         uniq = {}
         for f in failures:
             uniq.setdefault(f["key"], f)
-        return {"evaluations": len(results), "distinct_nontrivial": nontrivial,
-                "rule": "random scenarios on the real SignalDelivery / SignalIterator (SignalOnly): 1-2 delivery threads (simulated deliveries of watched signals through the real dispatcher and action), one consumer (style A: wait/pending; style B: poll_signal with a non-blocking callback / forever with a blocking one), optional close() threads, optionally a pre-filled self-pipe; PRNG schedule at every atomic operation, send/recv and callback; compared step by step with the Lean L8 model; monitors on the implementation trace; non-trivial = at least one signal yielded",
+        return {"evaluations": len(results) + nq, "distinct_nontrivial": nontrivial,
+                "queue_exfiltrator_scenarios": nq,
+                "rule": "random scenarios on the real SignalDelivery / SignalIterator (SignalOnly): 1-2 delivery threads (simulated deliveries of watched signals through the real dispatcher and action), one consumer (style A: wait/pending; style B: poll_signal with a non-blocking callback / forever with a blocking one), optional close() threads, optionally a pre-filled self-pipe; PRNG schedule at every atomic operation, send/recv and callback; compared step by step with the Lean L8 model; monitors on the implementation trace; non-trivial = at least one signal yielded; for C09/C10 additionally scenarios with the queueing exfiltrator WithRawSiginfo (repeated deliveries of one signal, unique id per delivery; implementation judged by the property monitors only: no record stranded when poll answers Pending or the consumer parks; every yielded record is one delivered record, once)",
                 "samples": [{"scenario": results[0]["scenario"], "trace": [l for l in results[0]["impl"] if " cas " not in l or "= ok" in l][:16]}] if results else [],
                 "traces_validated_against_impl": len(results), "steps_compared": steps, "distribution": dist,
                 "failures": list(uniq.values())}
 
     def replay(self, payload):
+        if payload.get("queue"):
+            from . import itq
+            r = itq.run_one([l for l in payload["scenario"] if not l.startswith("seed")] + ["schedule " + " ".join(payload["schedule"])])
+            probs = itq.monitors(r).get(self.pid, [])
+            return bool(probs), "\n".join(r["impl"][-60:] + [r["status"]] + probs)
         sc = [l for l in payload["scenario"] if not l.startswith("seed")]
         # replaying needs the unfiltered schedule, which is not kept: re-run the scenario under its seed
         r = it.run_one(payload["scenario"])
